@@ -2315,6 +2315,10 @@ func isSliceOfUniqueItems(xs []any) bool {
 	for _, x := range xs {
 		// The input slice is converted from a JSON string, there shall
 		// have no error when convert it back.
+		// (numbers decoded with UseNumber keep their spelling: 1 and 1.0 are one number)
+		if normalized, changed := jsonNumbersToFloat64(x); changed {
+			x = normalized
+		}
 		key, _ := json.Marshal(&x)
 		m[string(key)] = struct{}{}
 	}
